@@ -47,7 +47,7 @@ def gen_fine(rng, tier):
     """what the integer-cM model cannot carry: fine-scale maps (marker steps of 1e-6 … 1e-4 cM next to ordinary ones, so that
     cM ends below 1e-4 are written) and models whose fractions are repeating decimals cut after seven digits (rows that
     sum to 1 only to within 1e-7, which the validator accepts)"""
-    n = 12 if tier == "quick" else 200
+    n = 24 if tier == "quick" else 300
     for i in range(n):
         chroms = [str(c) for c in sorted(rng.sample(range(1, 23), rng.randint(1, 3)))] + (["X"] if rng.random() < 0.3 else [])
         maps = {}
